@@ -66,6 +66,10 @@ for _tier, _n in (("quick", 100), ("thorough", 2000)):
     FLOORS[_tier].update({"history:step:" + k: int(0.04 * _n) for k in (
         "stringio_b_after_path_a", "handle_b_after_path_a", "path_b_after_refusal", "path_a_after_objects", "handle_a_after_two_paths",
         "stringio_a_after_two_paths", "path_a_other_dtype", "path_a_first_dtype_again", "stringio_a_after_refusal", "handle_a_after_io_fault")})
+for _tier, _n in (("quick", 300), ("thorough", 6000)):
+    FLOORS[_tier].update({"format:" + k: int(f * _n) for k, f in (
+        ("id_line_leading_blanks", 0.12), ("id_line_leading_tab", 0.03), ("id_line_trailing_blanks", 0.1), ("id_with_inner_blank", 0.06), ("crlf_line_ends", 0.04),
+        ("tab_between_numbers", 0.06), ("indented_lines", 0.1), ("trailing_blanks_on_lines", 0.08), ("blank_lines_at_end", 0.06), ("no_final_newline", 0.03))})
 JOBS = {"quick": 1, "thorough": 8}
 CASE_TIMEOUT_S = 300
 
@@ -392,6 +396,12 @@ def run_case(run, tap, stream, index, rng):  # noqa: U100
         other = "float32" if _effective(dtype) == np.dtype("float64") else "float64"
         _routes(run, mon, text, other, "wellformed", tag + "b", ("path", "stringio"))
         run.count("values:%s" % spec.kind)
+        for flag, on in (("id_line_leading_blanks", bool(spec.id_indent)), ("id_line_leading_tab", "\t" in spec.id_indent), ("id_line_trailing_blanks", bool(spec.id_trail)),
+                         ("id_with_inner_blank", " " in spec.grid_id), ("crlf_line_ends", spec.eol == "\r\n"), ("tab_between_numbers", "\t" in spec.sep),
+                         ("indented_lines", bool(spec.indent)), ("trailing_blanks_on_lines", bool(spec.trail)), ("blank_lines_at_end", spec.extra_blank_lines > 0),
+                         ("no_final_newline", not spec.final_eol)):
+            if on:
+                run.count("format:%s" % flag)
         run.sample("wellformed", {"text": text[:1500], "dtype": str(dtype), "shape": spec.shape, "blank_cells": spec.n_blank,
                                   "value_kind": spec.kind, "monitor": "hand parser vs returned DataArray through path / open file / StringIO"})
     elif stream == "wrapped":
